@@ -20,6 +20,8 @@ structure CS where
   lastReset : Nat := 0
   lastRestart : Nat := 0
   sawResume : Bool := false
+  lastMono : Nat := 0           -- host monotonic reading at the last ReadClock
+  quiet : Bool := false         -- no restart / resume / ClockSet since the last ReadClock
   haveObs : Bool := false       -- a ReadClock was observed in this history
 
 def mism (c : CS) (msg : String) : CS :=
@@ -45,7 +47,7 @@ def step (c : CS) (l : Line) : CS :=
   let c := { c with line := c.line + 1 }
   match l.kind with
   | "host" => { c with mono := l.nat "mono", real := l.nat "real" }
-  | "hist" => { c with haveObs := false, lastClock := 0, sawCut := false, sawResume := false, cutNonOrderly := false, lastReset := 0, lastRestart := 0 }
+  | "hist" => { c with haveObs := false, quiet := false, lastClock := 0, sawCut := false, sawResume := false, cutNonOrderly := false, lastReset := 0, lastRestart := 0 }
   | "fresh" =>
       -- new TPM manufactured (orderlyState = TPM_SU_CLEAR, clock 0, safe) and `_TPM_Init` at the current host time
       let nv0 : Nv := { orderly := 0 }
@@ -57,7 +59,7 @@ def step (c : CS) (l : Line) : CS :=
       | some cmd =>
         let c := { c with rep := { c.rep with events := c.rep.events + 1 } }
         let (st', rc, inf, stored) := c.st.exec c.mono cmd
-        let c := { c with st := st' }
+        let c := { c with st := st', quiet := c.quiet && l.str "op" != "clockset" && l.str "op" != "startup" }
         let c := branch c s!"{l.str "op"}/rc={rc}/stored={stored}/safe={st'.safe}"
         let c := if l.nat "rc" ≠ rc then mism c s!"{l.str "op"}: rc model={rc} impl={l.nat "rc"}" else c
         let c := if (l.nat "stores" > 0) ≠ stored then
@@ -76,17 +78,21 @@ def step (c : CS) (l : Line) : CS :=
           let c := if c.haveObs && !c.sawCut && oc < c.lastClock then mism c s!"SPEC[clock-decreased] clock {c.lastClock} -> {oc} without a restart" else c
           let c := if c.cutNonOrderly && l.nat "safe" ≠ 0 && oc < c.preCut then
                      mism c s!"SPEC[safe-before-passed] safe=YES at clock={oc} but clock was {c.preCut} before the power cut" else c
+          -- never ahead of elapsed host time scaled by the fastest permitted rate (model-free; rate-agnostic bound)
+          let dH := c.mono - c.lastMono
+          let c := if c.haveObs && c.quiet && oc > c.lastClock && (oc - c.lastClock) * (Gen.CLOCK_NOMINAL - Gen.CLOCK_ADJUST_LIMIT) > (dH + 2) * Gen.CLOCK_NOMINAL then
+                     mism c s!"SPEC[clock-ahead-of-host] Clock advanced {oc - c.lastClock} ms while the host advanced {dH} ms" else c
           let c := if c.haveObs && c.sawResume && (l.nat "reset" ≠ c.lastReset || l.nat "restart" ≠ c.lastRestart) then
                      mism c s!"SPEC[counters-changed-by-resume] reset {c.lastReset}->{l.nat "reset"} restart {c.lastRestart}->{l.nat "restart"}" else c
           let c := if c.haveObs && !c.sawCut && l.nat "reset" ≠ c.lastReset then
                      mism c s!"SPEC[reset-count-changed] resetCount {c.lastReset}->{l.nat "reset"} without a restart" else c
-          { c with haveObs := true, lastClock := oc, sawCut := false, sawResume := false, lastReset := l.nat "reset", lastRestart := l.nat "restart",
+          { c with haveObs := true, quiet := true, lastMono := c.mono, lastClock := oc, sawCut := false, sawResume := false, lastReset := l.nat "reset", lastRestart := l.nat "restart",
                    cutNonOrderly := c.cutNonOrderly && !(l.nat "safe" ≠ 0) }
   | "restart" =>
       let c := branch c s!"restart/orderly={isOrderly c.st.disk.orderly}"
       let c := if l.nat "ret" ≠ 0 then mism c s!"MainInit after restart returned {l.nat "ret"}" else c
       let nonOrd := l.nat "orderly" = 0
-      { c with st := c.st.restart c.mono, sawCut := true, sawResume := false,
+      { c with st := c.st.restart c.mono, sawCut := true, sawResume := false, quiet := false,
                preCut := if nonOrd then c.lastClock else c.preCut, cutNonOrderly := nonOrd }
   | "suspend" => { c with saved := some (c.st.suspend c.mono c.real) }
   | "resume" =>
@@ -95,7 +101,7 @@ def step (c : CS) (l : Line) : CS :=
       | some sv =>
         let c := branch c s!"resume/monoBack={decide (c.mono < sv.monoPlusAdj)}/realBack={decide (c.real < sv.realAtSave)}"
         let c := if l.nat "ret" ≠ 0 then mism c s!"resume returned {l.nat "ret"}" else c
-        { c with st := resume sv c.mono c.real, saved := none, sawResume := !c.sawCut }
+        { c with st := resume sv c.mono c.real, saved := none, sawResume := !c.sawCut, quiet := false }
   | _ => c
 
 def check (ls : List Line) : Report := (ls.foldl step {}).rep
